@@ -246,7 +246,7 @@ def _bulk_insert(
             state.key = (
                 identity_cls,
                 tuple([dict_[key] for key in identity_props]),
-                None,
+                state.identity_token,
             )
 
     if use_orm_insert_stmt is not None:
